@@ -44,6 +44,12 @@ var xmlPubKey2 string
 //go:embed testdata/key3.json
 var key3json []byte
 
+//go:embed testdata/pk2048.xml
+var xmlPub2048 string
+
+//go:embed testdata/sk2048.xml
+var xmlPriv2048 string
+
 func init() {
 	gabi.Logger.SetLevel(logrus.FatalLevel)
 }
@@ -273,16 +279,41 @@ func Keys1024() []KeyPair {
 }
 
 var (
-	key3Once sync.Once
-	key3     KeyPair
+	key3Once  sync.Once
+	key3      KeyPair
+	k2048Once sync.Once
+	k2048     KeyPair
 )
+
+// Key2048 is a 2048-bit key pair with 6 bases and a revocation part, generated once with
+// gabikeys.GenerateKeyPair for this harness (test material only; the private key is in testdata).
+func Key2048() KeyPair {
+	k2048Once.Do(func() {
+		sk, err := gabikeys.NewPrivateKeyFromXML(xmlPriv2048, false)
+		if err != nil {
+			Fatal("2048-bit private key: %v", err)
+		}
+		pk, err := gabikeys.NewPublicKeyFromXML(xmlPub2048)
+		if err != nil {
+			Fatal("2048-bit public key: %v", err)
+		}
+		if !sk.RevocationSupported() {
+			if err := gabikeys.GenerateRevocationKeypair(sk, pk); err != nil {
+				Fatal("revocation keypair: %v", err)
+			}
+		}
+		pk.Issuer = "fixed2048"
+		k2048 = KeyPair{sk, pk}
+	})
+	return k2048
+}
 
 // Key3 is the third fixed 1024-bit key pair of the repository's tests (given there as raw numbers).
 func Key3() KeyPair {
 	key3Once.Do(func() {
 		var raw struct {
 			P, Q, N, S, Z string
-			R          []string
+			R             []string
 		}
 		if err := json.Unmarshal(key3json, &raw); err != nil {
 			Fatal("key3: %v", err)
